@@ -834,6 +834,8 @@ def row_index_of(an, fx, t, depth=0):
     c, i = elem_access(t)
     if c is not None:
         return i
+    if t[0] == "elem" and len(t) == 3:
+        return t[2]         # slice[i] on a captured slice reference
     if t[0] == "call" and t[3]:
         return row_index_of(an, fx, t[3][0], depth + 1)
     if t[0] == "field" or t[0] == "dc":
@@ -913,6 +915,28 @@ def subst_phis(an, fx, t, pick, depth=0):
     return tuple(out)
 
 
+def _is_closure_value(an, t, cpath):
+    """t is (a reference to / the moved value of) the local that holds the closure cpath"""
+    if t[0] == "agg" and t[1] == "closure":
+        return t[2] == cpath
+    if t[0] in ("addr", "at", "mem") and isinstance(t[1], str):
+        vals = [v for (var, ver), v in an.term_of.items() if var == t[1] and v[0] == "agg" and v[1] == "closure"]
+        return any(v[2] == cpath for v in vals)
+    return False
+
+
+def _inserts_its_pair(crate, fe):
+    """for_each(|(t, h)| digraph.add_arc(t, h)) / insert((t, h)) / rows[t].insert(h)"""
+    clo = fe["args"][1] if len(fe["args"]) == 2 else None
+    if not (clo and clo[0] == "agg" and clo[1] == "closure"):
+        return False
+    can = crate.an(clo[2])
+    cfx = crate.fx(clo[2])
+    item = ("arg", 2)
+    ins = arc_insertions(crate, can, cfx, toggles=True)
+    return len(ins) == 1 and (ins[0][1], ins[0][2]) == (("field", item, "0"), ("field", item, "1"))
+
+
 def _flat_pair_stream(crate, d):
     """d is `range.flat_map(|u| ((u + 1)..hi).map(move |v| (u, v)))`: a stream of the pairs u < v"""
     from .closures import capture_map
@@ -988,10 +1012,53 @@ def rule_one_per_pair(crate, prop, tier):
                             if d and d != "CYCLE" and _flat_pair_stream(crate, d):
                                 item = ("field", ("dc", ev["res"], "Some"), "0")
                                 inner = (ev, ("field", item, "0"), ("field", item, "1"))
+                mapped = None
+                if inner is None and crate.prog.fns[bp]["kind"] == "Closure":
+                    # the draw is made by a closure applied to every item of the pair stream:
+                    # stream.for_each(|(u, v)| ..insert..)  or  stream.map(|(u, v)| oriented pair) consumed by extend / for_each / collect
+                    IT_ = "core::iter::traits::iterator::Iterator::"
+                    par = crate.prog.fns[bp].get("parent")
+                    pan_, pfx_ = crate.an(par), crate.fx(par)
+                    cons = [pev for pev in pan_.events if pev["k"] == "call" and any(a[0] == "agg" and a[1] == "closure" and a[2] == bp
+                                                                                      for a in pev["args"])]
+                    if not cons:
+                        # a closure bound to a local first (`let orient = |..| ..; stream.map(orient)`)
+                        cons = [pev for pev in pan_.events if pev["k"] == "call" and pev["key"] in (IT_ + "map", IT_ + "for_each")
+                                and len(pev["args"]) == 2 and _is_closure_value(pan_, pev["args"][1], bp)]
+                    if len(cons) == 1 and cons[0]["key"] in (IT_ + "for_each", IT_ + "map") and len(cons[0]["args"]) == 2:
+                        src = cons[0]["args"][0]
+                        if src[0] == "addr":
+                            src = pfx_.iter_desc(cons[0])
+                        if src and src != "CYCLE" and _flat_pair_stream(crate, src):
+                            item = ("arg", 2)
+                            inner = (None, ("field", item, "0"), ("field", item, "1"))
+                            if cons[0]["key"] == IT_ + "map":
+                                mapped = (pan_, cons[0])
                 if not o.check(inner is not None, pretty, "pair-loop", "no loop `for v in (u + 1)..order` around the draw", dr["span"]):
                     continue
                 lev, u, v = inner
-                o.check(complete_scan(an, fx, lev), pretty, "pair-loop-complete", "the pair loop can end early", lev["span"])
+                if lev is not None:
+                    o.check(complete_scan(an, fx, lev), pretty, "pair-loop-complete", "the pair loop can end early", lev["span"])
+                if mapped is not None:
+                    # the closure returns the oriented pair; every item of the mapped stream must be inserted
+                    pan_, mev = mapped
+                    rets_ = [e for e in an.events if e["k"] == "return"]
+                    okm = False
+                    if len(rets_) == 1:
+                        rv = rets_[0]["val"]
+                        def on_(truth):
+                            tag = "true" if truth else "false"
+                            return lambda p_: fx.holds(p_, lambda rel: rel.has((tag, dr["res"])))
+                        tv, fv = subst_phis(an, fx, rv, on_(True)), subst_phis(an, fx, rv, on_(False))
+                        if tv is not None and fv is not None and tv[0] == "agg" and fv[0] == "agg":
+                            okm = {tuple(tv[3]), tuple(fv[3])} == {(u, v), (v, u)}
+                    o.check(okm, pretty, "both-directions", "the two outcomes of the draw do not yield u->v and v->u for the pair (u, v)", dr["span"])
+                    sinks = [e for e in pan_.events if e["k"] == "call" and e is not mev and any(a == mev["res"] for a in e["args"])]
+                    oks = len(sinks) == 1 and (sinks[0]["key"].endswith("Extend::extend") or sinks[0]["key"].endswith("Iterator::collect") or
+                                               (sinks[0]["key"].endswith("Iterator::for_each") and _inserts_its_pair(crate, sinks[0])))
+                    o.check(oks, pretty, "one-insertion-per-branch", "the oriented pairs are not all inserted (extend / collect / for_each(add_arc))",
+                            dr["span"])
+                    continue
                 T = [x for x in ins if fx.holds(x[0]["b"], lambda rel: rel.has(("true", dr["res"])))]
                 F = [x for x in ins if fx.holds(x[0]["b"], lambda rel: rel.has(("false", dr["res"])))]
                 rest = [x for x in ins if x not in T and x not in F]
@@ -1054,14 +1121,23 @@ def rule_er_draw(crate, prop, tier):
             if t in pset or any(_mentions(t, x) for x in pset):
                 return True
             # read through a captured reference to p
-            return t[0] == "mem" and isinstance(t[1], str) and t[1].endswith("*") and ("mem", t[1][:-1], ("e",), None) in pset
+            if t[0] == "mem" and isinstance(t[1], str) and t[1].endswith("*"):
+                R = t[1][:-1]
+                if ("mem", R, ("e",), None) in pset:
+                    return True
+                if R.startswith("A1.") and ("field", ("arg", 1), R[3:]) in pset:
+                    return True
+            # a reference to a local that holds p
+            if t[0] == "addr" and t[2] is None and ("mem", t[1], ("e",), None) in pset:
+                return True
+            return False
         for bp in bodies:
             an = crate.an(bp)
             if bp != p:
                 cm = capture_map(crate, an)
                 par = crate.prog.fns[bp].get("parent")
                 pt = ptaint.get(par, set())
-                ptaint[bp] = {cv for pv, cv in (cm.valmap if cm else []) if any(_mentions(pv, t) or pv == t for t in pt)}
+                ptaint[bp] = {cv for pv, cv in (cm.valmap if cm else []) if isinstance(pv, tuple) and pt and is_p(pv, pt)}
             pset = ptaint[bp]
             for ev in an.events:
                 if ev["k"] != "call" or not ev["key"]:
@@ -1091,8 +1167,25 @@ def rule_er_draw(crate, prop, tier):
                         continue
                     seen.add(t)
                     walk(t, None)
-                good = bool(uses) and all(u is not None and u[0] == "bin" and u[1] == "Lt" and u[2] == res and is_p(u[3], pset)
-                                          for u in uses)
+                def is_cmp(u):
+                    # draw < p, or its negation p <= draw (`if draw >= p { continue }`)
+                    return u is not None and u[0] == "bin" and ((u[1] == "Lt" and u[2] == res and is_p(u[3], pset)) or
+                                                                (u[1] == "Le" and u[3] == res and is_p(u[2], pset)))
+                good = bool(uses) and all(is_cmp(u) for u in uses)
+                if good:
+                    # polarity: the arc is kept / inserted when draw < p holds
+                    rets = [e for e in an.events if e["k"] == "return"]
+                    rv = rets[0]["val"] if len(rets) == 1 else None
+                    if rv is not None and _mentions(rv, res):
+                        good = (rv[0] == "bin" and rv[1] == "Lt") or (rv[0] == "un" and rv[1] == "Not" and rv[2][0] == "bin" and rv[2][1] == "Le")
+                    else:
+                        fx_ = crate.fx(bp)
+                        sinks = [e for e in an.events if e["k"] == "call" and e["key"] and an.cfg.dominates(ev["b"], e["b"]) and e["b"] != ev["b"]
+                                 and (e["key"].endswith("BTreeSet::insert") or e["key"].endswith("AddArc::add_arc") or
+                                      e["key"].endswith("AdjacencyMatrix::toggle") or e["key"].endswith("Vec::push"))]
+                        for e in sinks:
+                            if not fx_.holds(e["b"], lambda rel: any(a[0] == "lt" and a[1] == res and is_p(a[2], pset) for a in rel.w)):
+                                good = False
                 o.check(good, pretty, "draw-strictly-below-p", "a draw of next_f64() is not used exactly as `draw < p`: the extremes p = 0 "
                         "(no arcs) and p = 1 (all arcs) are no longer guaranteed", ev["span"])
         if draws == 0 and not delegates:
